@@ -39,6 +39,11 @@ CHECKS = {
         "exhaustive": {"quick": False, "thorough": False},
         "trusted_base": ["reference header/UDP/SCMP encoder and RFC1071 checksum in harness/refscion/src/wire.rs"],
     },
+    "C04": {
+        "engines": codec_engines(miri_shards_quick=4, miri_shards_thorough=8),
+        "exhaustive": {"quick": False, "thorough": False},
+        "trusted_base": ["reference topology generator, beaconing, combination rules and border router in harness/refscion/src/{topo,combine,router}.rs"],
+    },
     "C11": {
         "engines": codec_engines(),
         "exhaustive": {"quick": True, "thorough": True},
@@ -65,6 +70,20 @@ CHECKS = {
         ],
         "exhaustive": {"quick": True, "thorough": True},
         "trusted_base": ["first-match ACL evaluator, Brzozowski-derivative matcher and grammar recogniser in harness/chk-codec/src/c16.rs"],
+    },
+    "C18": {
+        "engines": [
+            eng("native-release", "chk-codec", NATIVE_REL, params={"all": {"scale": 4}}),
+            eng("native-debugassert", "chk-codec", NATIVE_CHK, params={"all": {"scale": 1}}),
+            eng("miri", "chk-codec", MIRI, shards={"quick": 2, "thorough": 4}, floor_scale=0.0, tiers=["thorough"], timeout={"quick": 1500, "thorough": 3600}),
+        ],
+        "exhaustive": {"quick": False, "thorough": False},
+        "trusted_base": ["provenance oracle in harness/chk-codec/src/c18.rs", "ECDSA P-256 (RustCrypto)", "prost protobuf codec"],
+    },
+    "C19": {
+        "engines": codec_engines(miri_shards_quick=2, miri_shards_thorough=4),
+        "exhaustive": {"quick": False, "thorough": False},
+        "trusted_base": ["reference wire decoder and border router in harness/refscion", "step bound 400*n^4 Entry::get calls"],
     },
 }
 
